@@ -353,6 +353,7 @@ def emit_fn(spec, mode, probe=False):
         body = rw.visibility(body)
         body = rw.flatten_paths(body)
         body = rw.asserts(body)
+        body = rw.format_macros(body)
         body = rw.enumerate_loops(body)
         body = rw.range_loops(body, spec.loops)
         body = rw.destructuring_assign(body)
